@@ -631,6 +631,9 @@ class VariantBase(productmd.common.MetadataBase):
                 if other is not None and other is not var:
                     raise ValueError("Variant UID already exists: %s" % var.uid)
                 todo.extend(var.variants.values())
+        for key, var in self.variants.items():
+            if var is variant and key != variant_id:
+                raise ValueError("Variant %s is already there as %s" % (variant.uid, key))
         new_variant = self.variants.setdefault(variant_id, variant)
         if new_variant != variant:
             raise ValueError("Variant ID already exists: %s" % variant.id)
